@@ -19,7 +19,8 @@ LEVEL_TEXT = ('Every binary operator spelling x every ordered pair of boundary l
               'pair (thorough: triple) of operators in both (all five) tree shapes rendered with minimal parentheses, every built-in function on its '
               'domain edges, and every integer notation x RADIX x RELAXED/INTSYNTAX setup history are assembled; the 64-bit / IEEE-double result is '
               'compared bit for bit with the reference evaluator, and every undefined operation must be reported as an error.'
-              " Shift counts 0..64 and beyond, >> on negative operands (logical, as the manual's operator table says), INT() at the limits of the 64-bit range and SINH/COSH beyond the double range on both sides are part of the function and depth-1 sub-spaces.")
+              " Shift counts 0..64 and beyond, >> on negative operands (logical, as the manual's operator table says), INT() at the limits of the 64-bit range and SINH/COSH beyond the double range on both sides are part of the function and depth-1 sub-spaces."
+              ' Added in the last round: user-defined FUNCTIONs over int/float/string arguments; every radix at which a notation letter becomes a digit (also in quick); notation-changing statements at the end of a two-pass source; 64-bit string indices; TANH, 0^negative, BITPOS of bit 63.')
 LEVEL_NOTE = ('Trusted: the reference evaluator written from the manual\'s operator and function tables; transcendental functions are accepted within '
               '1 ulp of the host libm. Domain: shift counts 0..63, >> with non-negative left operand, >< count 1..32, integer ^ with exponent >= 0, '
               'no string/number mixing.')
